@@ -1,6 +1,6 @@
 module pricesim
 
-go 1.22
+go 1.23
 
 require (
 	cosmossdk.io/log v1.3.1
